@@ -21,7 +21,7 @@ from corr.numlib import CULTURES
 PROP = 'C03'
 LEVEL = 'proof'
 PROPS_MODULES = ['RTV.Props.C03', 'RTV.Props.C03Frac', 'RTV.Props.C03Extract', 'RTV.Props.C03ExtractBounded',
-                 'RTV.Props.C03ExtractPlain']
+                 'RTV.Props.C03ExtractPlain', 'RTV.Lemmas.ReNullableNum']
 GEN = ['nummaps', 'chartables', 'numfrac', 'numregex', 'regexes', 'numfollow']
 REQUIRED_THEOREMS = ['digital_exact', 'digital_exact_neg', 'format_canonical', 'number_literal', 'percent_literal',
                      'digital_round16', 'separators_distinct', 'comma_dot_cultures', 'progressive_rounding_witness',
@@ -368,6 +368,13 @@ def pipeline(ctx, lits):
         if not demanded(cu, kind, lit):
             k = '%s:%s:%s%s:%s' % (kind, cu, lit['shape'], '-neg' if lit['neg'] else '', bad or 'ok')
             undemanded[k] = undemanded.get(k, 0) + 1
+            if bad == 'raises':
+                # outside the property (a surface form the culture does not support), but an exception is never just
+                # "another outcome": shown by itself in the evidence, with the inputs (audit item 25)
+                ur = ctx.extra.setdefault('not_demanded_forms_that_raise', {'count': 0, 'examples': []})
+                ur['count'] += 1
+                if len(ur['examples']) < 10:
+                    ur['examples'].append({'culture': cu, 'model': kind, 'query': q, 'exception': detail})
             continue
         fi = {'culture': cu, 'model': kind, 'query': q, 'literal': t, 'shape': lit['shape'], 'negative': lit['neg'],
               'result': res, 'expected_value': str(exact_value(lit))}
